@@ -460,7 +460,7 @@ class Interp(ExprMixin, StmtMixin):
         sub.explore(task)
         ranges.BOUNDS.clear()
         ranges.BOUNDS.update(saved_bounds)          # facts learned on the helper's own paths do not outlive them
-        ranges._MEMO.clear()
+        ranges._MEMO.clear()                        # (memo entries may depend on the dropped bounds; kept terms stay alive)
         self.ctx.ex.branch_checks += sub.branch_checks
         for l, s0 in zip(lists, snap):
             l[:] = s0
